@@ -656,6 +656,8 @@ func c05Deterministic(c *Ctx) {
 // fieldSources checks, for stores to fields of dstType in fn, that the stored value is computed from srcField.
 func (c *Ctx) fieldSources(fn *ssa.Function, dstType string, want map[string][]string) {
 	found := map[string]bool{}
+	sourced := map[string]bool{}
+	overrides := map[string][]*ssa.Store{}
 	instrs(fn, func(_ *ssa.BasicBlock, _ int, ins ssa.Instruction) {
 		st, ok := ins.(*ssa.Store)
 		if !ok {
@@ -698,8 +700,35 @@ func (c *Ctx) fieldSources(fn *ssa.Function, dstType string, want map[string][]s
 				}
 			}
 		}
+		if !okV {
+			// an override chosen by an option ("if fs.opts.NoTime { f.ModTime = time.Unix(0, 0) }"):
+			// the store lies behind a test of an options field and another store fills the field
+			// from the wanted source (checked below: found / sourced)
+			isOverride := false
+			for _, ob := range fn.Blocks {
+				if iff := lastIf(ob); iff != nil && onlyOrigins(stripNot(iff.Cond), func(o string) bool { return strings.HasPrefix(o, "field:") && strings.Contains(o, "Options.") }) {
+					// control-dependent on one outcome of the option test
+					for _, sc := range ob.Succs {
+						if !reachable(fn, map[edge]bool{{ob, sc}: true})[st.Block()] {
+							isOverride = true
+						}
+					}
+				}
+			}
+			if isOverride {
+				overrides[name] = append(overrides[name], st)
+				return
+			}
+		} else {
+			sourced[name] = true
+		}
 		c.verdict(okV, fmt.Sprintf("%s:%s.%s", fnKey(fn), dstType, name), st.Pos(), fmt.Sprintf("%s.%s <- %v", dstType, name, srcs), fmt.Sprintf("%s.%s is not filled from %v (origins %v): the attribute is lost or crossed on the way", dstType, name, srcs, origins(st.Val)))
 	})
+	for name, sts := range overrides {
+		if !sourced[name] {
+			c.bad(fmt.Sprintf("%s:%s.%s", fnKey(fn), dstType, name), sts[0].Pos(), "%s.%s is only ever set by an option override, never from %v", dstType, name, want[name])
+		}
+	}
 	for name := range want {
 		if !found[name] {
 			c.bad(fmt.Sprintf("%s:%s.%s", fnKey(fn), dstType, name), fn.Pos(), "%s.%s is never set in %s", dstType, name, fnKey(fn))
@@ -1094,7 +1123,9 @@ func c05StringTerminator(c *Ctx) {
 		}
 		switch sl := v.(type) {
 		case *ssa.Slice:
-			src := hasOrigin(sl.X, func(o string) bool { return strings.Contains(o, "reader).ReadN#0") })
+			src := hasOrigin(sl.X, func(o string) bool {
+				return strings.Contains(o, "reader).ReadN#0") || strings.Contains(o, "FormatDecoder).readBytes#0")
+			})
 			lowOK := sl.Low == nil
 			if k, isK := sl.Low.(*ssa.Const); sl.Low != nil && isK && constInt64(k) == 0 {
 				lowOK = true
